@@ -468,6 +468,10 @@ func (vps *H265RawVPS) Decode(data []byte) (err error) {
 
 	vps.Vps_max_layer_id = r.ReadUint8(6)
 	vps.Vps_num_layer_sets_minus1 = r.ReadUe16()
+	if vps.Vps_num_layer_sets_minus1 > HEVC_MAX_LAYER_SETS-1 {
+		return fmt.Errorf("Invalid stream: vps_num_layer_sets_minus1 = %d out of range [0,%d].\n",
+			vps.Vps_num_layer_sets_minus1, HEVC_MAX_LAYER_SETS-1)
+	}
 	vps.Layer_id_included_flag = make([][HEVC_MAX_LAYERS]uint8, vps.Vps_num_layer_sets_minus1+1)
 	for i := uint16(1); i <= vps.Vps_num_layer_sets_minus1; i++ {
 		for j := uint8(0); j <= vps.Vps_max_layer_id; j++ {
@@ -490,6 +494,10 @@ func (vps *H265RawVPS) Decode(data []byte) (err error) {
 		}
 
 		vps.Vps_num_hrd_parameters = r.ReadUe16()
+		if vps.Vps_num_hrd_parameters > vps.Vps_num_layer_sets_minus1+1 {
+			return fmt.Errorf("Invalid stream: vps_num_hrd_parameters = %d out of range [0,%d].\n",
+				vps.Vps_num_hrd_parameters, vps.Vps_num_layer_sets_minus1+1)
+		}
 		if vps.Vps_num_hrd_parameters > 0 {
 			vps.Hrd_layer_set_idx = make([]uint16, vps.Vps_num_hrd_parameters)
 			vps.Cprms_present_flag = make([]uint8, vps.Vps_num_hrd_parameters)
